@@ -222,9 +222,9 @@ func (l *Lexer) Split() []*Token {
 			tokLen = 0
 			var token *Token = nil
 
-			if next != '=' {
+			if next != '=' || char == '*' || char == '+' || char == '-' || char == '/' {
 				switch char {
-				case '!', '*', '+', '-', '/':
+				case '!', '*', '+', '-', '/', '^', '~':
 					token = &Token{
 						Tp:   OPERATOR,
 						Data: string(char),
